@@ -20,6 +20,7 @@ BUDGET = {
     "quick": {"examples": 240, "shards": 4, "case_timeout": 60, "wall_budget": 240},
     "thorough": {"examples": 6000, "shards": 16, "case_timeout": 120, "wall_budget": 1800},
 }
+FUZZ = {"thorough": dict(runs=20000, procs=8, wall_s=600)}
 TOLERANCES = {"perturb": "bit-identical", "permute": "1e3 * eps * scale", "noise": "bit-identical"}
 
 
